@@ -1,18 +1,2 @@
--- GENERATED by /verif/tools/extract.py from src/{primitive,chain,generic,spanning,union}.rs (relabel call sites and shape) -- do not edit
-
-namespace Kodama.Gen
-
-/-- The statements of each `_with` after its main loop, normalised. -/
-def epilogue : List (String × List String) := [
-  ("primitive_with", ["relabel method", "sqrt method"]),
-  ("nnchain_with", ["relabel method.into_method()", "sqrt method"]),
-  ("generic_with", ["relabel method", "sqrt method"]),
-  ("mst_with", ["relabel Method::Single"])
-]
-
-/-- Shape of `LinkageUnionFind::relabel`. -/
-def relabelShape : List String := ["reset", "if requires_sorting", "sort_by partial_cmp expect", "for i in 0..len"]
-
-def relabelLoop : List String := ["let new_cluster1 = self.find(dendrogram[i].cluster1)", "let new_cluster2 = self.find(dendrogram[i].cluster2)", "self.union(new_cluster1, new_cluster2)", "let size1 = dendrogram.cluster_size(new_cluster1)", "let size2 = dendrogram.cluster_size(new_cluster2)", "dendrogram[i].set_clusters(new_cluster1, new_cluster2)", "dendrogram[i].size = size1 + size2"]
-
-end Kodama.Gen
+-- translator failed: LinkageUnionFind::relabel: unexpected shape (reset; if requires_sorting { steps.sort_by(partial_cmp.expect) }; for i in 0..len { .. })
+#exit_translator_failed
